@@ -183,13 +183,13 @@ def run_driver_parallel(driver, outdir, seed0, runs, nproc, args, deadline=600):
     return records
 
 
-def run_tlc_replay(outdir, seed0, nbeh, nproc, deadline=1800):
+def run_tlc_replay(outdir, seed0, nbeh, nproc, deadline=1800, genspec="RainConc_Gen"):
     """spec -> impl: TLC (simulation mode) generates complete behaviours of RainConc
     (spec/RainConc_Gen.tla); the `sched` driver replays each against the real code."""
     shutil.rmtree(outdir, ignore_errors=True)
     os.makedirs(outdir, exist_ok=True)
-    rc, out, wall = tlc(f"gen-{seed0}", "RainConc_Gen.tla", "RainConc_Gen.cfg", workers=1, timeout=600,
-                        extra=["-simulate", f"num={nbeh}", "-depth", "250", "-seed", str(seed0)], heap="2g")
+    rc, out, wall = tlc(f"gen-{seed0}", genspec + ".tla", genspec + ".cfg", workers=1, timeout=600,
+                        extra=["-simulate", f"num={nbeh}", "-depth", "400", "-seed", str(seed0)], heap="2g")
     scheds = []
     for line in out.splitlines():
         m = re.match(r'<<"@@SCHED", "(.*)">>$', line)
@@ -198,7 +198,7 @@ def run_tlc_replay(outdir, seed0, nbeh, nproc, deadline=1800):
             if js not in scheds:
                 scheds.append(js)
     if not scheds:
-        raise ToolError("TLC generated no behaviours of RainConc_Gen:\n" + "\n".join(out.splitlines()[-20:]))
+        raise ToolError(f"TLC generated no behaviours of {genspec}:\n" + "\n".join(out.splitlines()[-20:]))
     nproc = max(1, min(nproc, len(scheds)))
     jobs = []
     for i in range(nproc):
@@ -410,6 +410,11 @@ PROPS = {
                    final_rc3=True),
               dict(driver="sched", args=["--all"], quick=1, thorough=6, trace=CONC_TRACE,
                    final_rc3=True),
+              # spec -> impl: behaviours of RainManual / RainConc generated by TLC and replayed
+              dict(driver="sched", gen="tlc", genspec="RainManual_Gen", args=[], quick=100,
+                   thorough=3000, trace=CONC_TRACE, final_rc3=True),
+              dict(driver="sched", gen="tlc", genspec="RainConc_Gen", args=[], quick=60,
+                   thorough=2000, trace=CONC_TRACE, final_rc3=True),
               dict(driver="hist", args=["--nops", "70", "--per-file", "6", "--descriptors",
                                         "--compact-bias", "1", "--profile", "fill"],
                    quick=24, thorough=600)]),
@@ -518,7 +523,8 @@ def check_prop(prop, tier, seed):
         seed0 = PROP_SEED_BASE[prop] + wi * 500 + seed * 100000
         if w.get("gen") == "tlc":
             r, nsched = run_tlc_replay(outdir, seed0, runs, nproc,
-                                       deadline=1800 if tier == "quick" else 14400)
+                                       deadline=1800 if tier == "quick" else 14400,
+                                       genspec=w.get("genspec", "RainConc_Gen"))
             extra["tlc_behaviours_replayed"] = extra.get("tlc_behaviours_replayed", 0) + nsched
         else:
             r = run_driver_parallel(w["driver"], outdir, seed0, runs, min(nproc, runs), w["args"],
